@@ -280,6 +280,25 @@ def audit(prop):
     return res
 
 
+def leancheck(prop):
+    """thorough tier: replay the compiled .olean files of the property's modules (and of the translator agreement
+    modules they rest on) through `leanchecker`, the toolchain's independent re-checker of declarations."""
+    mods = props_modules(prop)
+    bad = []
+    if not mods:
+        return [], bad
+    from concurrent.futures import ThreadPoolExecutor
+
+    def one(m):
+        rc, out = sh(["lake", "env", "leanchecker", m], cwd=LEAN, timeout=1800)
+        return m, rc, out
+    with ThreadPoolExecutor(max_workers=8) as ex:
+        for m, rc, out in ex.map(one, mods):
+            if rc != 0:
+                bad.append(f"leanchecker rejects {m}: " + out[-300:])
+    return mods, bad
+
+
 # ------------------------------------------------------------------ runners
 def run_driver(lines, timeout=3600, exe=None):
     if not lines:
